@@ -444,6 +444,13 @@ func genRT(tier string) []proto.RTItem {
 		one := 300 + 10 + 100 + 100
 		items = append(items, proto.RTItem{Scn: r, Class: fmt.Sprintf("request/%s-%s/silent-destination-six-probes", pr.p, pr.m), Note: map[string]string{"limit_ms": fmt.Sprint(5*200 + one)}})
 	}
+	// one send of the request fails (the position is enumerated: a run's probe, an end-to-end probe's): the request still
+	// returns - with the error - within the bound of a request none of whose runs is answered
+	for _, pr := range []struct{ p, m, h string }{{"udp", "", "203.0.113.77"}, {"icmp", "", "203.0.113.77"}, {"tcp", "syn", "203.0.113.77"}} {
+		r := proto.RTScn{Hostname: pr.h, Protocol: pr.p, Method: pr.m, MinTTL: 1, MaxTTL: 4, DelayMs: 10, TimeoutMs: 300, Queries: 1, E2e: 3, Dest: 3, IPIDBase: 800, EchoBase: 80,
+			Faults: []simnet.Fault{{Op: "WriteTo", K: -1, Class: "fatal"}}}
+		items = append(items, proto.RTItem{Scn: r, Class: fmt.Sprintf("request/%s-%s/one-send-fails", pr.p, pr.m), Note: map[string]string{"limit_ms": fmt.Sprint(3*200 + 4*(300+100) + 600), "error_ok": "1"}})
+	}
 	// the target's port swallows the SACK variant's connect (the SYN is dropped, nothing comes back): the connect gives up
 	// after the handshake timeout (the request's timeout); `sack` then fails, `prefer_sack` runs its SYN trace over the
 	// equally silent destination
